@@ -1,6 +1,7 @@
 package engine
 
 import (
+	"bytes"
 	"crypto/elliptic"
 	"crypto/sha256"
 	"fmt"
@@ -56,8 +57,10 @@ type rosterOp struct {
 }
 
 type RosterDriver struct {
-	ops []rosterOp
-	cid []byte
+	ops       []rosterOp
+	cid       []byte
+	other     []byte   // the bystander container
+	otherDump []string // its storage entries at the base state
 }
 
 func NewRosterDriver() *RosterDriver {
@@ -87,7 +90,21 @@ func NewRosterDriver() *RosterDriver {
 func (d *RosterDriver) Build() *World {
 	w := buildContainerWorld(1, 0, 0)
 	w.Acct("S")
+	// a bystander: another container id (it shares 31 of 32 bytes with the explored one) with a committed roster
+	// of two keys and a pending one of one key; nothing the explored container does may touch it
+	d.other = append(append([]byte{}, d.cid[:31]...), d.cid[31]^1)
+	h := w.Contracts["container"].Hash
+	al := []neotest.Signer{w.AlphaS}
+	w.Invoke(h, al, "addNextEpochNodes", d.other, int64(0), []any{DetKey(0x61, 0).PublicKey().Bytes(), DetKey(0x61, 1).PublicKey().Bytes()})
+	w.Invoke(h, al, "commitContainerListUpdate", d.other, []any{int64(2)})
+	w.Invoke(h, al, "addNextEpochNodes", d.other, int64(0), []any{DetKey(0x61, 2).PublicKey().Bytes()})
+	d.otherDump = nil
 	w.Freeze()
+	for _, kv := range w.Dump(w.Root, "container") {
+		if bytes.Contains(kv.K, d.other) {
+			d.otherDump = append(d.otherDump, Hx(kv.K)+"="+Hx(kv.V))
+		}
+	}
 	return w
 }
 func (d *RosterDriver) Init(*World) Model { return &rosterModel{} }
@@ -192,6 +209,19 @@ func (d *RosterDriver) Step(x *Exec, n *Node, i int) StepResult {
 			return viol("nodes", fmt.Sprintf("nodes(cid,%d) returns %d keys (fault %q), model %d; first difference at %d", v, len(got), r.Fault, len(want), firstDiff(got, want)))
 		}
 	}
+	// the bystander container keeps its committed and pending rosters
+	var od []string
+	for _, kv := range w.Dump(nn.L, "container") {
+		if bytes.Contains(kv.K, d.other) {
+			od = append(od, Hx(kv.K)+"="+Hx(kv.V))
+		}
+	}
+	if fmt.Sprint(od) != fmt.Sprint(d.otherDump) {
+		return viol("other-container-touched", fmt.Sprintf("the storage of another container changed: %v -> %v", d.otherDump, od))
+	}
+	if ro := w.Read(nn.L, nn.H, nn.TS, h, "nodes", d.other, int64(0)); !ro.Halt || len(strList(ro.Ret0())) != 2 {
+		return viol("other-container-touched", fmt.Sprintf("nodes(other container, 0) = %v %q", ro.Stack, ro.Fault))
+	}
 	r := w.Read(nn.L, nn.H, nn.TS, h, "replicasNumbers", d.cid)
 	var wr []any
 	for _, k := range nm.reps {
@@ -203,7 +233,7 @@ func (d *RosterDriver) Step(x *Exec, n *Node, i int) StepResult {
 	// raw scan: the pending roster is exactly the model's, in order
 	var pend [3][]string
 	for _, kv := range w.Dump(nn.L, "container") {
-		if kv.K[0] == 'u' && len(kv.K) == 1+32+1+2 {
+		if kv.K[0] == 'u' && len(kv.K) == 1+32+1+2 && bytes.Equal(kv.K[1:33], d.cid) {
 			v := int(kv.K[33])
 			if v < 3 {
 				pend[v] = append(pend[v], Hx(kv.V))
@@ -259,6 +289,7 @@ type sigCase struct {
 	R0, R1  int
 	V0, V1  []string // symbols per slot
 	Vectors int      // how many vectors the matrix carries (2 normally)
+	Dup     bool     // the container whose vector 0 lists member 0 twice: [m0, m0, m1, m2]
 }
 
 type SigGrid struct {
@@ -313,8 +344,25 @@ func (d *SigGrid) Build() *World {
 			w.Invoke(h, al, "commitContainerListUpdate", cid, []any{int64(r0), int64(r1)})
 		}
 	}
+	// containers whose vector 0 lists member 0 twice (a member counts once, wherever it is listed)
+	for r0 := 1; r0 <= 3; r0++ {
+		cid := d.cidDup(r0)
+		m := d.mem[0]
+		w.Invoke(h, al, "addNextEpochNodes", cid, int64(0), []any{m[0].PublicKey().Bytes(), m[0].PublicKey().Bytes(), m[1].PublicKey().Bytes(), m[2].PublicKey().Bytes()})
+		var ks []any
+		for _, k := range d.mem[1] {
+			ks = append(ks, k.PublicKey().Bytes())
+		}
+		w.Invoke(h, al, "addNextEpochNodes", cid, int64(1), ks)
+		w.Invoke(h, al, "commitContainerListUpdate", cid, []any{int64(r0), int64(1)})
+	}
 	w.Freeze()
 	return w
+}
+
+func (d *SigGrid) cidDup(r0 int) []byte {
+	h := sha256.Sum256([]byte(fmt.Sprintf("sig-container-dup-%d", r0)))
+	return h[:]
 }
 
 func (d *SigGrid) metaBytes(w *World, cid []byte, size int64) []byte {
@@ -371,6 +419,19 @@ func (d *SigGrid) Cases(tier string) []GridCase {
 			rec(nil, slots, func(v0 []string) { add(sigCase{R0: r0, R1: 1, V0: v0, V1: honest(1), Vectors: 2}) })
 		}
 	}
+	// the roster that lists member 0 twice: every vector-0 matrix over the first symbols
+	for r0 := 1; r0 <= 3; r0++ {
+		for slots := 0; slots <= r0+1; slots++ {
+			rec(nil, slots, func(v0 []string) {
+				for _, sy := range v0 {
+					if sy == "m3" || sy == "x0" || sy == "x1" || sy == "junk" || sy == "m0other" {
+						return
+					}
+				}
+				out = append(out, GridCase{Name: fmt.Sprintf("duplicate-member roster REP=%d,1 v0=%v v1=%v", r0, v0, honest(1)), Data: sigCase{R0: r0, R1: 1, V0: v0, V1: honest(1), Vectors: 2, Dup: true}})
+			})
+		}
+	}
 	// vector-1 matrices (3 members: symbols naming m3 fall outside) with an honest vector 0
 	for r1 := 1; r1 <= 2; r1++ {
 		for slots := 0; slots <= r1+1; slots++ {
@@ -425,6 +486,9 @@ func (d *SigGrid) Eval(x *Exec, root *Node, gc GridCase) GridResult {
 	c := gc.Data.(sigCase)
 	h := w.Contracts["container"].Hash
 	cid := d.cidFor(c.R0, c.R1)
+	if c.Dup {
+		cid = d.cidDup(c.R0)
+	}
 	msg := d.metaBytes(w, cid, 7)
 	other := d.metaBytes(w, cid, 8)
 	rows := [][]string{c.V0, c.V1}[:c.Vectors]
@@ -433,7 +497,7 @@ func (d *SigGrid) Eval(x *Exec, root *Node, gc GridCase) GridResult {
 	anyValid := false
 	reps := []int{c.R0, c.R1}
 	for v := 0; v < 2; v++ {
-		distinct := map[int]bool{}
+		distinct := map[string]bool{} // by key: a member listed twice is one member
 		if v < len(rows) {
 			var row []any
 			for _, sym := range rows[v] {
@@ -442,7 +506,8 @@ func (d *SigGrid) Eval(x *Exec, root *Node, gc GridCase) GridResult {
 				hs := sha256.Sum256(msg)
 				for mi, k := range d.mem[v] {
 					if k.PublicKey().Verify(sg, hs[:]) {
-						distinct[mi] = true
+						_ = mi
+						distinct[string(k.PublicKey().Bytes())] = true
 						anyValid = true
 					}
 				}
